@@ -18,7 +18,7 @@ import random
 from collections import Counter
 from pathlib import Path
 
-from . import common, c01_corpus, c01_driver, c01_findings, c01_sweep
+from . import common, c01_corpus, c01_driver, c01_findings, c01_hunt, c01_sweep
 
 PID = "C01"
 WITNESS_FILE = common.VERIF / "corpus" / "c01" / "witnesses.json"
@@ -81,6 +81,10 @@ def build_corpus(tier: str, seed: int = 0, extra_seed=None):
         out.append((f"{fam}:{fid}", fam, w["src"], [w["opts"]]))
         if not quick:
             add(f"{fam}:{fid}:all", fam, w["src"], pick_combos(k, 8))
+    # round 4: families over dimensions the hunters varied (harness/c01_hunt.py); small programs, all of them in both tiers
+    D = {"safe": False, "keep_imports": False, "use_preserve": False, "max_line_length": 100}
+    for k, (name, src) in enumerate(c01_hunt.all_programs()):
+        add(f"hunt:{name}", "hunt", src, [D] if quick else [D] + pick_combos(k, 3))
     nflow, ndata = (240, 240) if quick else (600, 600)
     shard = (lambda i: i % 4 == seed % 4) if quick else (lambda i: True)
     for i in range(nflow):
